@@ -18,6 +18,7 @@ From BU Require Import NoPanic.Slices NoPanic.CashAddrNP NoPanic.Base58NP NoPani
 From BU Require Import Gen.Nets Address.Address Wif.Wif HD.HD NoPanic.AddressNP NoPanic.WifNP NoPanic.HDNP.
 From BU Require Import Merkle.Merkle Merkle.ExtractTop NoPanic.MerkleNP Bloom.Bloom NoPanic.BloomNP.
 From BU Require Import Gcs.Gcs NoPanic.GcsNP.
+From BU Require Import Bloom.BloomTx Bloom.BloomTxSpec Bloom.BloomTxInst Props.C10.
 
 (* ---------------- CashAddr: DecodeCashAddress, encode ---------------- *)
 Theorem C08_DecodeCashAddress_no_panic : forall str, is_panic (decode_cashaddr str) = false.
@@ -190,6 +191,38 @@ Theorem C08_gcs_alloc_old_refuted :
               8 * N.of_nat (length (f_data f)) / (f_p f + 1) < 1000 * 1000 * 1000 < GcsNP.size_hint_old f.
 Proof. exact GcsNP.size_hint_old_refuted. Qed.
 Print Assumptions C08_gcs_alloc_old_refuted.
+
+(* ---------------- block scan (GetMatchedIndices / NewMerkleBlock; model and proofs: Bloom/BloomTx*.v, a-c10) -------- *)
+(* the scan never runs out of its fuel (recursion depth <= number of transactions): termination *)
+Theorem C08_scan_terminates :
+  forall (F item txid : Type) (contains : F -> item -> bool) (insert : F -> item -> F)
+         (txid_eqb : txid -> txid -> bool) (id_item : txid -> item) (op_item : txid -> N -> item),
+    filter_laws contains insert -> (forall a b, txid_eqb a b = true <-> a = b) ->
+    forall fl f0 (txs : list (tx item txid)),
+      exists st, scan contains insert txid_eqb id_item op_item fl f0 txs = Some st.
+Proof. exact C10_scan_terminates. Qed.
+Print Assumptions C08_scan_terminates.
+
+(* scan_cost: at most n + (number of inputs) filter matches, in any transaction order *)
+Theorem C08_scan_cost :
+  forall (F item txid : Type) (contains : F -> item -> bool) (insert : F -> item -> F)
+         (txid_eqb : txid -> txid -> bool) (id_item : txid -> item) (op_item : txid -> N -> item),
+    filter_laws contains insert -> (forall a b, txid_eqb a b = true <-> a = b) ->
+    forall fl f0 (txs : list (tx item txid)) st,
+      NoDup (map t_id txs) ->
+      scan contains insert txid_eqb id_item op_item fl f0 txs = Some st ->
+      (s_calls st <= length txs + total_inputs txs)%nat.
+Proof. exact C10_scan_cost. Qed.
+Print Assumptions C08_scan_cost.
+
+(* the scan as it was before commit 1a7bb05 (re-matched transactions re-recurse) breaks the bound *)
+Theorem C08_scan_cost_old_refuted :
+  exists (txs : list (tx N N)) (f0 : list N) (fuel : nat) (st : sstate (list N)),
+    NoDup (map t_id txs) /\
+    scan_old (set_contains N N.eqb) (set_insert N) N.eqb xid xop fuel UpdAll f0 txs = Some st /\
+    (s_calls st > length txs + total_inputs txs)%nat.
+Proof. exact C10_scan_cost_old_refuted. Qed.
+Print Assumptions C08_scan_cost_old_refuted.
 
 (* the statements are not vacuous: a 5-bit payload encodes, and the resulting string decodes back
    (so the no-panic theorems cover the accepting path as well as the rejecting ones) *)
